@@ -69,7 +69,9 @@ func VerifH_file_serve4() {
 	n0 := len(resp.Options)
 	old := resp.YourIPAddr
 
+	shareTables()
 	r, stop := Handler4(req, resp)
+	vnd.Unshare()
 
 	vnd.Assert(vnd.HeldLocks() == 0, "C16 file plugin read lock released")
 	vnd.Assert(r == resp, "C10 file4 passes the response object on")
@@ -135,7 +137,9 @@ func VerifH_file_serve6() {
 	resp, extra := vh.Resp6(msg, uint16(dhcpv6.OptionIANA))
 	n0 := len(resp.Options.Options)
 
+	shareTables()
 	r, stop := Handler6(req, resp)
+	vnd.Unshare()
 
 	vnd.Assert(vnd.HeldLocks() == 0, "C16 file plugin read lock released")
 	vnd.Assert(r == dhcpv6.DHCPv6(resp) && !stop, "C10 file6 passes the response on")
@@ -188,7 +192,9 @@ func VerifH_file_swap() {
 	}
 	before := vnd.CriticalSections()
 
+	shareTables()
 	err := loadFromFile(v6, "leases.txt")
+	vnd.Unshare()
 
 	sections := vnd.CriticalSections() - before
 	vnd.Assert(vnd.HeldLocks() == 0, "C16 file plugin write lock released")
@@ -226,6 +232,8 @@ func VerifH_file_dualstack() {
 	var h4 func(req, resp *dhcpv4.DHCPv4) (*dhcpv4.DHCPv4, bool)
 	var h6 func(req, resp dhcpv6.DHCPv6) (dhcpv6.DHCPv6, bool)
 	var err4, err6 error
+	// the second instance is set up while the first one is already serving
+	shareTables()
 	if vnd.Pick("order", 0, 1) == 0 {
 		h4, err4 = setup4("v4.txt")
 		h6, err6 = setup6("v6.txt")
@@ -233,6 +241,7 @@ func VerifH_file_dualstack() {
 		h6, err6 = setup6("v6.txt")
 		h4, err4 = setup4("v4.txt")
 	}
+	vnd.Unshare()
 	vnd.Assert(err4 == nil && err6 == nil && h4 != nil && h6 != nil, "C10 both instances load their file")
 	if err4 != nil || err6 != nil {
 		return
